@@ -183,13 +183,17 @@ PROPS['C06'] = {
 
 SGR_SHAPES_Q = ['sgr_shape_one', 'sgr_shape_2_semi', 'sgr_shape_2_colon', 'sgr_shape_3_semis', 'sgr_shape_3_colons', 'sgr_shape_3_colon_semi',
                 'sgr_shape_4_semi', 'sgr_shape_5_semi', 'sgr_shape_10_semi', 'sgr_print_execute', 'sgr_to_ansi_color']
+SGR_FRAME = ['sgr_extract_frame_ground', 'sgr_extract_frame_esc', 'sgr_extract_frame_csi_param', 'sgr_extract_frame_csi_colon', 'sgr_extract_frame_osc', 'sgr_extract_frame_utf8']
+SGR_EMISSION = ['sgr_run_emission_3_plain', 'sgr_run_emission_3_bold', 'sgr_run_emission_4_plain']
 SGR_SHAPES_T = SGR_SHAPES_Q + ['sgr_shape_3_semi_colon', 'sgr_shape_4_colon3_semi', 'sgr_shape_5_colon', 'sgr_shape_6_semi']
 PROPS['C07'] = {
     'level': 'model_checking',
     'functions': ['anstream::adapter::wincon::WinconCapture::{csi_dispatch,print,execute,reset}', 'anstream::adapter::wincon::to_ansi_color',
                   'via C02: anstyle_parse::Parser::advance (the events csi_dispatch receives)'],
-    'quick': {'kani': [{'crate': 'anstream', 'harnesses': SGR_SHAPES_Q, 'timeout': 1500, 'mem_gb': 8, 'jobs': 6}]},
-    'thorough': {'kani': [{'crate': 'anstream', 'harnesses': SGR_SHAPES_T, 'timeout': 3000, 'mem_gb': 8, 'jobs': 6}]},
+    'quick': {'kani': [{'crate': 'anstream', 'harnesses': SGR_SHAPES_Q + SGR_FRAME, 'timeout': 1500, 'mem_gb': 8, 'jobs': 8},
+                       {'crate': 'anstream', 'harnesses': SGR_EMISSION[:2], 'timeout': 1500, 'mem_gb': 8, 'jobs': 3, 'flags': ['-Z', 'stubbing'], 'tag': 'em'}]},
+    'thorough': {'kani': [{'crate': 'anstream', 'harnesses': SGR_SHAPES_T + SGR_FRAME, 'timeout': 3000, 'mem_gb': 8, 'jobs': 8},
+                          {'crate': 'anstream', 'harnesses': SGR_EMISSION, 'timeout': 3000, 'mem_gb': 8, 'jobs': 3, 'flags': ['-Z', 'stubbing'], 'tag': 'em'}]},
     'bounded': {h: 'parameter-list shape fixed (see harness name: number of values and which are joined by `:`), values and entry style fully symbolic' for h in SGR_SHAPES_T if h.startswith('sgr_shape')},
     'rule': 'one case = one parameter-list shape (count of values and ;/: pattern) verified for all 2^16 values per position x all entry styles x ignore flag x final byte x pending text; non-trivial = harness verified and its cover (a defined sequence that changes the style) reached',
     'assumptions': ['S4 (spec/sgr.rs) is the reference; codes the statement does not list (5, 22-29, 59) and groups the standards leave open (38 followed by neither 5 nor 2, values > 255, 4:n when another underline kind is already set) are unconstrained',
@@ -293,10 +297,11 @@ PROPS['C20'] = {
     'explanation': 'The one-step refinement of Parser::advance is re-proved by Verus on the text extracted under each feature set against the same model; spec-level lemmas show the capacity is unobservable while payloads fit, that a full buffer drops payload bytes and separators and nothing else, and that 7-bit input never reaches the UTF-8 accumulator.',
 }
 
+WINCON_WA_SCRIPTED = ['wincon_write_all_s_none', 'wincon_write_all_s_two_plain', 'wincon_write_all_s_short_then_rest', 'wincon_write_all_s_short_both', 'wincon_write_all_s_interrupted_twice', 'wincon_write_all_s_error_second', 'wincon_write_all_s_error_after_short', 'wincon_write_all_s_zero_after_short', 'wincon_write_all_s_zero_first']
 PROPS['C18'] = {
     'level': 'model_checking',
     'functions': ['anstream::wincon::{write,write_all,cap_wincon_color} (cut verbatim from the working tree and compiled on this platform)'],
-    'quick': {'kani': [{'crate': 'anstream', 'harnesses': ['wincon_cap_color', 'wincon_write_reports_progress'], 'timeout': 2400, 'mem_gb': 12, 'jobs': 3, 'flags': ['-Z', 'stubbing', '-Z', 'restrict-vtable'], 'io_error_unwind': 2, 'tag': 'rv'}]},
+    'quick': {'kani': [{'crate': 'anstream', 'harnesses': ['wincon_cap_color', 'wincon_write_reports_progress'] + WINCON_WA_SCRIPTED, 'timeout': 2400, 'mem_gb': 12, 'jobs': 6, 'flags': ['-Z', 'stubbing', '-Z', 'restrict-vtable'], 'io_error_unwind': 2, 'tag': 'rv'}]},
     'bounded': {'wincon_write_reports_progress': 'the styled-run extractor replaced by a recording stand-in yielding 0-2 runs with arbitrary fg/bg colours and 1-2 byte texts; at most one misbehaving console call (any prefix, zero, Interrupted, Other)'},
     'rule': 'one case = one harness over all extractor answers (<= 2 runs) x all console scripts (<= 2 faults); non-trivial = verified with covers reached',
     'assumptions': ['modular: which runs the extractor yields for a given input (visible text in order, no escape byte, style in effect) is C02 + C07; here write/write_all are verified to hand over exactly the runs they are given',
